@@ -63,6 +63,21 @@ def parseRules (s : String) : List (Nat × Nat) :=
     | [a, b] => match a.toNat?, b.toNat? with | some a, some b => some (a, b) | _, _ => none
     | _ => none)
 
+/-- first (register, bit-field) of the selected layout whose reset value / enum table violates the table facts -/
+def firstBadField (l : Layout) (d : LayoutD) : String :=
+  let pairs := (l.regs.zip d.regs).zipIdx
+  let bad := pairs.filterMap (fun x =>
+    let r := x.1.1; let rd := x.1.2; let ri := x.2
+    if !decide (rd.init < 2 ^ r.width) then some s!"{ri}:-:init" else
+    ((r.fields.zip rd.fields).zipIdx.filterMap (fun y =>
+      let f := y.1.1; let fd := y.1.2; let fi := y.2
+      if !decide (fd.reset >>> fd.shift < 2 ^ f.width) || ((rd.init >>> f.off) % 2 ^ f.width) <<< fd.shift != fd.reset then some s!"{ri}:{fi}:reset"
+      else if !fd.enums.all (fun e => decide (e.1 >>> fd.shift < 2 ^ f.width)) then some s!"{ri}:{fi}:enum"
+      else none)).head?)
+  match bad.head? with
+  | some x => x
+  | none => "-"
+
 def stepLine (st : St) : List String → St × String
   | ["sel", i] => match parseNat i with
     | some i => (match Generated.RegLayouts.layouts[i]? with
@@ -121,6 +136,7 @@ def stepLine (st : St) : List String → St × String
         | none => (st, "bad-index"))
       | none => (st, "bad-index"))
     | _, _, _ => (st, "bad-op")
+  | ["dwhere"] => (st, firstBadField st.l st.d)
   | ["dcheck"] =>
     let bad := (List.range Generated.RegLayouts.layouts.length).filterMap (fun i =>
       match Generated.RegLayouts.layouts[i]?, Generated.RegDetails.details[i]? with
